@@ -54,9 +54,16 @@ static void case_tostr(uint64_t h, int sz) {
         } else {
             if (memcmp(buf, want, (size_t)n + 1))
                 vf_violation("wrong-text", "h3ToString", key, "", "h=%016" PRIx64 " wrote \"%.20s\", expected \"%s\"", h, (char *)buf, want);
-            for (int i = n + 1; i < sz; i++)
+            /* the statement gives the function "at most 16 digits plus terminator": the first 17 bytes are its to use (a
+             * version that clears them all is within the statement — only counted), anything from byte 17 on is not */
+            for (int i = n + 1; i < sz && i < 17; i++)
                 if (buf[i] != 0xCC) {
-                    vf_violation("touched", "h3ToString", key, "", "byte %d after the terminator was modified (len %d, sz %d)", i, n, sz);
+                    vf_add("tostr.scratch_bytes_within_17_after_terminator_written", 1);
+                    break;
+                }
+            for (int i = 17; i < sz; i++)
+                if (buf[i] != 0xCC) {
+                    vf_violation("touched", "h3ToString", key, "", "byte %d (beyond the 17 the text can need) was modified (len %d, sz %d)", i, n, sz);
                     break;
                 }
             /* round trip through an exact-size copy of the text */
